@@ -6,7 +6,8 @@ import vlib
 def run(tier, seed, replay=None):
     ck = vlib.Check("C03", tier, seed, "model_checking")
     binary = vlib.build_harness()
-    c = dict(Ids='{"P","Q"}', Heads='{"h1","h2"}', Topics='{"none","t1","t2"}', EXPORT=True, CHECK_SIGNER=True)
+    c = dict(Ids='{"P","Q"}' if tier == "quick" else '{"P","Q","R"}', Heads='{"h1","h2"}' if tier == "quick" else '{"h1","h2","h3"}',
+             Topics='{"none","t1","t2"}', EXPORT=True, CHECK_SIGNER=True)
     r = vlib.tlc("SignedHead", ("c03.cfg", vlib.cfg_text(c, ["Agree", "PublisherServesValid", "ExportCase"])), workers=4, timeout=900, tag="c03")
     ck.add_tlc("SignedHead", r, "publisher x head x topic x expected peer x alteration: GetHead accepts iff the response is an honest head of the expected publisher")
     m = vlib.tlc("SignedHead", ("c03m.cfg", vlib.cfg_text(dict(c, EXPORT=False, CHECK_SIGNER=False), ["Agree"])), workers=2, timeout=900, tag="c03m")
